@@ -1311,6 +1311,32 @@ func stripSensitiveHeadersOnRedirect(req *Request, initialHost []byte, redirectU
 	req.Header.Del(HeaderProxyAuthenticate)
 	req.Header.Del(HeaderProxyAuthorization)
 	req.Header.Del(HeaderWWWAuthenticate)
+
+	// With normalizing disabled the keys are stored as spelled by the caller
+	// ("authorization", "COOKIE2", ...) and Del matches only the exact
+	// spelling. Header names are case-insensitive, so drop every spelling.
+	if !req.Header.disableNormalizing {
+		return
+	}
+	for i := 0; i < len(req.Header.h); {
+		if key := req.Header.h[i].key; isSensitiveRedirectHeader(key) {
+			req.Header.h = delAllArgsStable(req.Header.h, string(key))
+			continue
+		}
+		i++
+	}
+}
+
+func isSensitiveRedirectHeader(key []byte) bool {
+	for _, name := range []string{
+		HeaderAuthorization, HeaderCookie, HeaderCookie2,
+		HeaderProxyAuthenticate, HeaderProxyAuthorization, HeaderWWWAuthenticate,
+	} {
+		if asciiEqualFold(key, s2b(name)) {
+			return true
+		}
+	}
+	return false
 }
 
 // shouldStripSensitiveHeadersOnRedirect defines the trust boundary for
